@@ -3,6 +3,8 @@ package main
 // crypto/rand, math/big (as used by NewDeviceCode / NewUserCode) and a few further small models.
 
 import (
+	"go/types"
+
 	"golang.org/x/tools/go/ssa"
 )
 
@@ -58,5 +60,88 @@ func init() {
 		o := ex.newOpaque("bigint")
 		o.Attrs["v"] = r
 		return Tuple{Ptr{Obj: ex.newObj(o, nil)}, Iface{}}
+	})
+}
+
+// html/template: the form_post page. Execute is modelled at the data-flow level: the page is an
+// uninterpreted function of the redirect URI and the (name, first value) pairs of the non-empty
+// parameters, which verifnd.FormAction / FormField read back. Contextual escaping itself
+// (html/template's reflection-driven escaper) is outside the encoding.
+func init() {
+	reg("(*html/template.Template).Execute", func(ex *Exec, fn *ssa.Function, a []Value) Value {
+		data, ok := a[2].(Iface)
+		if !ok || data.T == nil {
+			panic(engineErr("template.Execute: unsupported data"))
+		}
+		pt, isPtr := data.T.Underlying().(*types.Pointer)
+		if !isPtr {
+			panic(engineErr("template.Execute: data is not a pointer to a struct"))
+		}
+		st, isStruct := pt.Elem().Underlying().(*types.Struct)
+		if !isStruct {
+			panic(engineErr("template.Execute: data is not a pointer to a struct"))
+		}
+		sv := (*data.V.(Ptr).slot()).(*StructV)
+		var uri *Term
+		var params *MapV
+		for i := 0; i < st.NumFields(); i++ {
+			switch st.Field(i).Name() {
+			case "RedirectURI":
+				uri = sv.Fields[i].(*Term)
+			case "Params":
+				if iv, ok := sv.Fields[i].(Iface); ok {
+					params, _ = iv.V.(*MapV)
+				} else {
+					params, _ = sv.Fields[i].(*MapV)
+				}
+			}
+		}
+		if uri == nil {
+			panic(engineErr("template.Execute: only the form_post page is modelled"))
+		}
+		args := []*Term{uri}
+		if params != nil {
+			for _, e := range params.Entries {
+				vs, ok := e.V.(SliceV)
+				if !ok || vs.Len == 0 {
+					continue
+				}
+				args = append(args, e.K.(*Term), vs.get(0).(*Term))
+			}
+		}
+		ex.writeTo(a[1], UF("formpost.html", SSeq, args...))
+		return Iface{}
+	})
+	formArgs := func(body Value) ([]*Term, bool) {
+		t, ok := body.(*Term)
+		if !ok || t.Op != "uf" || t.Name != "uf_"+mangle("formpost.html") {
+			return nil, false
+		}
+		return t.Args, true
+	}
+	reg(nd("FormAction"), func(ex *Exec, fn *ssa.Function, a []Value) Value {
+		args, ok := formArgs(a[0])
+		if !ok {
+			return Tuple{StrLit(""), tFalse}
+		}
+		return Tuple{args[0], tTrue}
+	})
+	reg(nd("FormField"), func(ex *Exec, fn *ssa.Function, a []Value) Value {
+		args, ok := formArgs(a[0])
+		name := a[1].(*Term)
+		if !ok {
+			return Tuple{StrLit(""), tFalse}
+		}
+		for i := 1; i+1 < len(args); i += 2 {
+			eq := Eq(args[i], name)
+			if eq.IsLit() {
+				if eq.B {
+					return Tuple{args[i+1], tTrue}
+				}
+				continue
+			}
+			panic(engineErr("FormField: symbolic parameter name"))
+		}
+		return Tuple{StrLit(""), tFalse}
 	})
 }
